@@ -169,6 +169,17 @@ CHECKS = {
         "assumptions": ["testing/synctest durable-block detection", "logical stamps taken by the actors bracket the library calls", "rapid v1.3.0; go1.26.8"],
         "jobs": [{"pkg": "c10pipe", "kinds": ["pipe"], "scale_thorough": 8, "shards_thorough": 16, "replay_reps": 200}],
     },
+    "C12": {
+        "level": "exploration",
+        "level_text": ("Generated producer scripts per arity (chans.Merge: 0,1,2,3,4,7 inputs = all four code paths; chans.Replicate: 0-4 destinations with different capacities and reader paces; stream.Merge: 0-5 scripted streams ending normally, "
+                       "with an error at a generated position, or blocking forever) with generated fake-time gaps and consumer paces, run in testing/synctest bubbles R times: output multiset and per-input order, the blocking call returns "
+                       "exactly when all inputs are exhausted and everything is delivered (not earlier, and it is not durably blocked afterwards), stream.Merge reports an input's error and never the end after it, and after Close every input is closed once and the bubble exits"),
+        "level_note": "Interleavings are explored by generated gaps/paces and repetition (select randomness), not exhaustively. Trusts testing/synctest and sk.RecStream.",
+        "technique": "property-based testing (rapid) of generated producer/consumer scripts in testing/synctest bubbles; multiset/order/termination oracle",
+        "rule": ("kinds chans-merge, replicate, stream-merge. non-trivial = >= 2 non-empty inputs of different lengths (one closes while another still has values), or arity in {0,1}, or an early Close (stream.Merge); replicate: >= 2 destinations and >= 2 values, or zero destinations; distinct = distinct plan JSON; R=3/10"),
+        "assumptions": ["testing/synctest durable-block detection", "rapid v1.3.0; go1.26.8"],
+        "jobs": [{"pkg": "c12merge", "kinds": ["chans-merge", "replicate", "stream-merge"], "scale_thorough": 10, "shards_thorough": 16, "replay_reps": 30}],
+    },
     "C04": {
         "level": "exploration",
         "level_text": ("Model-based property testing: thousands of generated operation histories (macro-ops reach wrapped, full, "
